@@ -242,15 +242,24 @@ pub fn check_crc_primitive(ctx: &mut Ctx, data: &[u8]) {
         // the attribute made from it carries the XORed value on the wire and gives the CRC back
         let f = stun_types::attribute::Fingerprint::new(c);
         let raw = stun_types::attribute::AttributeWrite::to_raw(&f);
-        (c, raw.value.to_vec(), *f.fingerprint())
+        // and written in place through the typed attribute's own writer (an application sealing a
+        // message in its own buffer)
+        let mut dest = [0xEEu8; 10];
+        let n = stun_types::attribute::AttributeWriteExt::write_into(&f, &mut dest).unwrap_or(0);
+        let mut dest2 = [0xEEu8; 8];
+        stun_types::attribute::AttributeWrite::write_into_unchecked(&f, &mut dest2);
+        let inplace_ok = n == 8 && dest[..4] == [0x80, 0x28, 0x00, 0x04] && dest[4..8] == raw.value[..] && dest[8..] == [0xEE, 0xEE] && dest2 == dest[..8];
+        (c, raw.value.to_vec(), *f.fingerprint(), inplace_ok, dest.to_vec())
     });
     let w = || json!({"kind": "crc-primitive", "data": hex(data)});
     match r {
         Err(p) => ctx.violation("C09", "no-panic", "Fingerprint::compute", "primitive", w, "value".into(), format!("panic: {} at {}", p.msg, p.loc)),
-        Ok((c, wire, back)) => {
+        Ok((c, wire, back, inplace_ok, dest)) => {
             let xored: Vec<u8> = want.iter().zip([0x53u8, 0x54, 0x55, 0x4e]).map(|(a, b)| a ^ b).collect();
             if c != want || wire != xored || back != want {
                 ctx.violation("C09", "crc-is-iso-hdlc", "Fingerprint::{compute,new,to_raw}", "primitive", w, format!("crc {} wire {}", hex(&want), hex(&xored)), format!("crc {} wire {} getter {}", hex(&c), hex(&wire), hex(&back)));
+            } else if !inplace_ok {
+                ctx.violation("C09", "crc-is-iso-hdlc", "Fingerprint::write_into", "primitive,in-place", w, format!("8028 0004 {} written in place", hex(&xored)), hex(&dest));
             }
             ctx.count("crc-primitive-checks");
         }
@@ -366,6 +375,28 @@ pub fn run(ctx: &mut Ctx) {
         }
         near_miss_relations(ctx, &base);
         enumerate_faults(ctx, &base, &mut rng, !quick);
+    }
+    // ---- the same over messages as real peers send them (attributes that repeat each other's
+    //      information, nested messages, the usual sealing): nothing in a message helps a corrupted
+    //      one past the checksum ----
+    {
+        let mut r2 = ctx.rng("realistic", 0);
+        let reps = ctx.n(16, 160).div_ceil(ctx.nshards).max(1);
+        for variant in 0..REALISTIC_VARIANTS {
+            for _ in 0..reps {
+                let (base, _creds) = gen_realistic_message(&mut r2, variant);
+                // (check_base reports a well-formed fingerprinted message that the parser refuses)
+                if !check_base(ctx, &base) {
+                    ctx.count("realistic-messages-not-usable");
+                    continue;
+                }
+                ctx.count("realistic-base-messages");
+                ctx.distinct(hash64(&[7, hash_bytes(&base)]));
+                near_miss_relations(ctx, &base);
+                enumerate_faults(ctx, &base, &mut r2, !quick);
+            }
+        }
+        ctx.require("realistic-base-messages", 100);
     }
     // near-miss relations on many more messages than the (expensive) fault enumeration can take
     {
